@@ -254,7 +254,7 @@ def build(tier, seed, verbose=True):
 
     threads = [threading.Thread(target=job, args=("main", ws, out, target)),
                threading.Thread(target=job, args=("neg", neg_ws, os.path.join(out, "negout"), target_neg), kwargs={"wrapper": False, "sub": "build"})]
-    if tier == "thorough":
+    if True:  # (both tiers: a regression in the overflow-proof validation shows only in this configuration)
         # the --release configuration of the proc macro: no overflow checks inside the macro
         target2 = os.path.join(out, "target_rel")
         threads.append(threading.Thread(target=job, args=("neg_macro_release", neg_ws, os.path.join(out, "rel"), target2),
@@ -361,52 +361,63 @@ def build(tier, seed, verbose=True):
     # type-level rejection of every other witness in that crate: witnesses that showed no error there are
     # compiled again on their own, so that "no error" really means "accepted"
     RES = ("E0433", "E0412", "E0425", "E0432", "E0405")
-    for rnd in (1, 2):
-        redo = []
-        for c in list(negs):
-            ds = results["neg"]["diags"].get(c.name, [])
-            if not any(x.get("code") in RES for x in ds):
-                continue
-            quiet = []
-            for d in model[c.name]["decls"]:
-                if d.get("kind") != "neg" or d.get("rechecked"):
+    REL_ENV = {"CARGO_PROFILE_DEV_BUILD_OVERRIDE_OVERFLOW_CHECKS": "false", "CARGO_PROFILE_DEV_BUILD_OVERRIDE_DEBUG_ASSERTIONS": "false"}
+    negs0 = list(negs)
+    for (label, suffix, xenv) in (("neg", "", None), ("neg_macro_release", "r", REL_ENV)):
+        if label not in results:
+            continue
+        todo = list(negs0)
+        for rnd in (1, 2):
+            redo = []
+            for c in todo:
+                ds = results[label]["diags"].get(c.name, [])
+                if not any(x.get("code") in RES for x in ds):
                     continue
-                hit = any(a.get("line") and d["line0"] <= a["line"] <= d["line1"] for x in ds for a in x["at"])
-                if not hit:
-                    quiet.append(d)
-            if not quiet or len(quiet) == len([d for d in model[c.name]["decls"] if d.get("kind") == "neg"]):
-                continue
-            c2 = corpus.Crate("%s_re%d" % (c.name, rnd), kind="neg")
-            c2.header = c.header
-            for d in model[c.name]["decls"]:
-                if d.get("kind") == "raw":
-                    c2.add(json.loads(json.dumps(d)))
-            for d in quiet:
-                d["rechecked"] = True
-                d2 = json.loads(json.dumps(d))
-                d2.pop("rechecked", None)
-                c2.add(d2)
-            redo.append(c2)
-        if not redo:
-            break
-        ws_n = os.path.join(out, "ws_neg_re%d" % rnd)
-        mn = write_workspace(ws_n, redo)
-        model.update(mn)
-        tn = os.path.join(out, "target_neg_re%d" % rnd)
-        rn = run_cargo(ws_n, os.path.join(out, "negout"), tn, wrapper=False, sub="build", label="neg_re%d" % rnd)
-        shutil.rmtree(tn, ignore_errors=True)
-        for cname, ds in rn["diags"].items():
-            results["neg"]["diags"][cname] = ds
-        negs.extend(redo)
-        crates.extend(redo)
+                quiet = []
+                for d in model[c.name]["decls"]:
+                    if d.get("kind") != "neg" or label in d.get("rechecked", []):
+                        continue
+                    hit = any(a.get("line") and d["line0"] <= a["line"] <= d["line1"] for x in ds for a in x["at"])
+                    if not hit:
+                        quiet.append(d)
+                if not quiet or len(quiet) == len([d for d in model[c.name]["decls"] if d.get("kind") == "neg"]):
+                    continue
+                c2 = corpus.Crate("%s_re%d%s" % (c.name, rnd, suffix), kind="neg")
+                c2.header = c.header
+                for d in model[c.name]["decls"]:
+                    if d.get("kind") == "raw":
+                        c2.add(json.loads(json.dumps(d)))
+                for d in quiet:
+                    d.setdefault("rechecked", []).append(label)
+                    d2 = json.loads(json.dumps(d))
+                    d2.pop("rechecked", None)
+                    c2.add(d2)
+                redo.append(c2)
+            if not redo:
+                break
+            ws_n = os.path.join(out, "ws_neg_re%d%s" % (rnd, suffix))
+            mn = write_workspace(ws_n, redo)
+            for cn in mn:
+                mn[cn]["only_label"] = label
+            model.update(mn)
+            tn = os.path.join(out, "target_neg_re%d%s" % (rnd, suffix))
+            rn = run_cargo(ws_n, os.path.join(out, "negout" if not suffix else "rel"), tn, wrapper=False, sub="build", label="%s_re%d" % (label, rnd), extra_env=xenv)
+            shutil.rmtree(tn, ignore_errors=True)
+            for cname, ds in rn["diags"].items():
+                results[label]["diags"][cname] = ds
+            negs.extend(redo)
+            crates.extend(redo)
+            todo = redo
     # must-fail declarations that were *accepted*: compile them with the driver too, so that the properties about
     # accepted declarations (C11 invariant, C16 totality) also get a verdict on them
     accepted = []
     negdiags = results["neg"]["diags"]
     for c in negs:
+        if model[c.name].get("only_label") not in (None, "neg"):
+            continue
         ds = negdiags.get(c.name, [])
         for d in model[c.name]["decls"]:
-            if d.get("kind") != "neg" or d.get("prop") != "C09" or not d.get("model"):
+            if d.get("kind") != "neg" or d.get("prop") != "C09" or not d.get("model") or "neg" in d.get("rechecked", []):
                 continue
             hit = any(a.get("line") and d["line0"] <= a["line"] <= d["line1"] for x in ds for a in x["at"])
             if not hit:
